@@ -191,6 +191,8 @@ def obligations(tier):
            ['common.Slice.Slice.first/count/gen_indices/indices'], harness='C15_slice', func='slice_reuse', timeout=170 if q else 1200, stubs=['PySlice for builtin slice'], parts=6),
         Ob('sample_reuse_across_lengths', 'ch', 'one Sample object (1..5) applied to n1 then to n2 != n1, both 0..8',
            ['common.Slice.Sample.first/count/gen_indices/indices'], harness='C15_slice', func='sample_reuse', timeout=170 if q else 1200),
+        Ob('sample_spread_wide', 'ch', 'every sample size 1..48 on every n 0..64 (real Sample object, run natively per case)', ['common.Slice.Sample.first/count/gen_indices/indices'],
+           harness='C15_slice', func='sample_sel_wide', timeout=170 if q else 600, parts=8),
         Ob('sample_spread_small', 'ch', 'sample size 1..4, n 0..6 (real Sample object incl. first())', ['common.Slice.Sample.first/count/gen_indices/indices'],
            harness='C15_slice', func='sample_sel_small', timeout=170, tiers=('quick',)),
         Ob('sample_spread', 'ch', 'sample size 1..8, n 0..12', ['common.Slice.Sample.first/count/gen_indices/indices'],
